@@ -97,7 +97,13 @@ impl<'a> ResourceRecordManager<'a> {
         )|
          -> Option<&ResourceRecord> {
             let (resource, resource_type) = resource_pair;
-            if filter.match_filter(resource_type) {
+
+            // the trie key is the concatenation of the reversed labels, different names can share
+            // a key or a key prefix, only label-wise matches belong to the queried domain
+            let in_domain = resource.name == *name
+                || (filter.subdomain && resource.name.is_subdomain_of(name));
+
+            if in_domain && filter.match_filter(resource_type) {
                 Some(resource)
             } else {
                 None
